@@ -21,11 +21,12 @@
 import ast
 import json
 import os
+import re
 import shutil
 
 import common
 import statuslib
-from statuslib import fname, tname, size_of, CK_MODEL
+from statuslib import tname, size_of, CK_MODEL, content_of, NS
 
 META = {
     'property': 'C10',
@@ -92,21 +93,91 @@ META = {
 # proves the full statement outside the F-C10 path) and turn the `open:` line of readded-dep-stale-state into `fixed:`.
 READDED_FIX_APPLIED = True
 
+# file names: style of the case (`fstyle`): plain, with a space, with braces (what `%(dependencies)s` joins by a space and
+# what str.format would read as a field).  One process evaluates one case at a time: the style is a module global.
+FILE_STYLES = ['f%d', 'f %d', 'f{%d}']
+FILE_RES = [re.compile(r'f(\d+)'), re.compile(r'f (\d+)'), re.compile(r'f\{(\d+)\}')]
+_FSTYLE = 0
+
+
+def fname(p):
+    return FILE_STYLES[_FSTYLE] % p
+
+
+def split_names(text):
+    """the file names in a `' '.join(names)` substitution (names may contain a space): (names, rest)"""
+    names = ['f' + FILE_STYLES[_FSTYLE][1:] % int(m) for m in FILE_RES[_FSTYLE].findall(text)]
+    rest = FILE_RES[_FSTYLE].sub('', text).strip()
+    return names + ([rest] if rest else [])
+
+
 SHARED_TAG = 7
 OBS_PY = 'obs.jsonl'
 OBS_CMD = 'obs-cmd.txt'
 GETARGS_ERR = 'ERROR getting value for argument'
 
 
+# values that JSON changes when they are saved (tuple -> list, int / None dict keys -> str, nested) or keeps (float, text):
+# value id >= 20.  The model treats a value as an opaque id; the harness identifies an observed value modulo the JSON
+# round trip (that is what the DB returns in a later run; in the run that computed it the raw python object is delivered).
+ODD_VALUES = {20: (1, 2), 21: {3: 'x', None: 1.5}, 22: 2.5, 23: [[1, (2, 3)], {'a': None}], 24: 'text \u00fc', 25: []}
+ODD_BASE = 1000
+
+
+# values the DB can not store (json raises TypeError): value id >= 30.  `save_success` refuses them: the execution is a
+# task failure ("saving success ... can not be saved"), the record is removed, consumers do not run.
+UNSAVEABLE = {30: 'set', 31: 'bytes', 32: 'path'}
+
+
+def unsaveable_value(vid):
+    import pathlib
+    return {30: {1, 2}, 31: b'ab', 32: pathlib.PurePosixPath('f0')}[vid]
+
+
+def plan_saveable(pl):
+    """can the values / result the action returns under this plan be stored?"""
+    if (pl or {}).get('vid') in UNSAVEABLE:
+        return False
+    dl = (pl or {}).get('deliver')
+    if dl is not None and dl.get('kind') in (None, 'dict') and dl.get('pathobj') and dl.get('deps'):
+        return False
+    return True
+
+
+def _jnorm(x):
+    return json.loads(json.dumps(x))
+
+
+ODD_INDEX = {json.dumps(_jnorm(v), sort_keys=True): ODD_BASE + k for k, v in ODD_VALUES.items()}
+
+
 def vals_of(vid):
     """the dict a producer's action returns for value id `vid`"""
+    if vid in ODD_VALUES:
+        return {'k0': ODD_VALUES[vid], 'k1': vid}
+    if vid in UNSAVEABLE:
+        return {'k0': unsaveable_value(vid), 'k1': vid}
     if vid % 3 == 0:
         return {'k0': vid}
     return {'k0': vid, 'k1': vid + 50}
 
 
 def uv_of(vid):
+    if vid in UNSAVEABLE:
+        return [[0, ODD_BASE + vid], [1, vid]]
+    if vid in ODD_VALUES:
+        return [[0, ODD_BASE + vid], [1, vid]]
     return sorted([int(k[1:]), v] for k, v in vals_of(vid).items())
+
+
+def value_id(x):
+    """observed value -> the model's value id (ints are themselves)"""
+    if isinstance(x, int) and not isinstance(x, bool):
+        return x
+    try:
+        return ODD_INDEX.get(json.dumps(_jnorm(x), sort_keys=True))
+    except Exception:  # noqa
+        return None
 
 
 def sub_id(g, j):
@@ -153,6 +224,9 @@ def norm_def(d):
     d.setdefault('calc', [])          # calc_dep task ids
     d.setdefault('subs', 0)           # > 0: group task with that many sub-task producers
     d.setdefault('cmd', False)        # first action is a cmd-action echoing the substitutions
+    d.setdefault('pathobj', None)     # 'path' | 'pure': file_dep / targets written as pathlib objects
+    d.setdefault('ga_list', False)    # getargs entries written as lists [task, key]
+    d.setdefault('param', False)      # a task `params` entry named like the first getargs arg
     d.setdefault('substyle', 0)       # group only: index into SUB_STYLES (names of the sub-tasks)
     d.setdefault('kwform', None)      # 'varkw' | 'explicit': python-action given as (callable, [], shared kwargs dict)
     d.setdefault('delayed', None)     # group only: task id after whose execution the group is created (create_after)
@@ -175,6 +249,20 @@ class World(statuslib.World):
         statuslib.World.__init__(self, backend, checker, ntasks, npaths)
         self.defs = {t: norm_def({}) for t in range(ntasks)}
         self.shared_kw = {'tag': SHARED_TAG}
+        self.fmt = 'old'          # DOIT_CONFIG['action_string_formatting']
+
+    def write(self, p, cid, mtime):
+        with open(fname(p), 'w') as f:
+            f.write(content_of(cid))
+        os.utime(fname(p), ns=(mtime * NS, mtime * NS))
+
+    def touch(self, p, mtime):
+        if os.path.exists(fname(p)):
+            os.utime(fname(p), ns=(mtime * NS, mtime * NS))
+
+    def delete(self, p):
+        if os.path.exists(fname(p)):
+            os.remove(fname(p))
 
     def _effect(self, key):
         world = self
@@ -186,19 +274,48 @@ class World(statuslib.World):
             if not pl.get('ok', True):
                 return False
             if pl.get('deliver') is not None:
-                return {'file_dep': [fname(p) for p in pl['deliver'].get('deps', [])],
-                        'task_dep': [tname(u) for u in pl['deliver'].get('tasks', [])]}
+                dl = pl['deliver']
+                if dl.get('kind') == 'str':
+                    return 'file_dep f0'         # a str result: no values, nothing is delivered
+                if dl.get('kind') == 'none':
+                    return None
+                out = {}
+                if dl.get('junk'):
+                    out['junk'] = 1              # keys update_deps does not know are ignored (first in the dict)
+                    out['setup'] = ['nosuchtask']
+                out['file_dep'] = [world.pathobj(fname(p), dl.get('pathobj')) for p in dl.get('deps', [])]
+                out['task_dep'] = [tname(u) for u in dl.get('tasks', [])]
+                if dl.get('uptodate') is not None:
+                    out['uptodate'] = [bool(b) for b in dl['uptodate']]
+                return out
             if pl.get('vid') is not None:
                 return vals_of(pl['vid'])
             return True
         return effect
 
+    @staticmethod
+    def pathobj(name, on):
+        """file names as pathlib objects (doit converts them to str)"""
+        if on:
+            import pathlib
+            return pathlib.PurePosixPath(name) if on == 'pure' else pathlib.Path(name)
+        return name
+
     def _actions(self, tid, d):
         effect = self._effect(str(tid))
         argnames = [g[0] for g in d['getargs']]
         if d['cmd']:
-            bits = ['t=%d' % tid, 'C=%(changed)s', 'D=%(dependencies)s', 'T=%(targets)s']
-            bits += ['A:%s=%%(%s)s' % (a, a) for a in argnames]
+            fmt = self.fmt
+            if fmt == 'new':
+                bits = ['t=%d' % tid, 'C={changed}', 'D={dependencies}', 'T={targets}']
+                bits += ['A:%s={%s}' % (a, a) for a in argnames]
+            elif fmt == 'both':
+                # `action.format(**subs) % subs`: both spellings in one string
+                bits = ['t=%d' % tid, 'C={changed}', 'D=%(dependencies)s', 'T={targets}']
+                bits += ['A:%s=%%(%s)s' % (a, a) if n % 2 else 'A:%s={%s}' % (a, a) for n, a in enumerate(argnames)]
+            else:
+                bits = ['t=%d' % tid, 'C=%(changed)s', 'D=%(dependencies)s', 'T=%(targets)s']
+                bits += ['A:%s=%%(%s)s' % (a, a) for a in argnames]
             return ['echo "%s" >> %s' % (';'.join(bits), OBS_CMD), effect]
 
         form = d['kwform']
@@ -208,6 +325,10 @@ class World(statuslib.World):
             rec = {'t': tid, 'changed': list(changed), 'dependencies': list(dependencies), 'targets': list(targets),
                    'args': {k: kw[k] for k in argnames if k in kw},
                    'extra': sorted(k for k in kw if k not in own)}
+            try:
+                rec['rawdiff'] = sorted(k for k in rec['args'] if repr(kw[k]) != repr(_jnorm(kw[k])))
+            except Exception:  # noqa
+                rec['rawdiff'] = ['unserialisable']
             if form:
                 rec['tag'] = kw.get('tag', 'absent')
             with open(OBS_PY, 'a') as f:
@@ -235,9 +356,37 @@ class World(statuslib.World):
         return [(act, [], self.shared_kw)]
 
     def doit(self, argv, reporter=None):
+        """one in-process doit invocation (as statuslib.World.doit, plus `action_string_formatting`)"""
         global _WORLD
         _WORLD = self
-        return statuslib.World.doit(self, argv, reporter)
+        if self.fmt == 'old':
+            return statuslib.World.doit(self, argv, reporter)
+        import contextlib
+        import io
+        from doit.doit_cmd import DoitMain
+        from doit.cmd_base import ModuleTaskLoader
+        ns = self.namespace()
+        cfg = {'dep_file': self.db, 'backend': self.backend, 'verbosity': 0, 'check_file_uptodate': self.checker,
+               'action_string_formatting': self.fmt}
+        if reporter is not None:
+            cfg['reporter'] = reporter
+        ns['DOIT_CONFIG'] = cfg
+        out, err = io.StringIO(), io.StringIO()
+        with contextlib.redirect_stdout(out), contextlib.redirect_stderr(err):
+            try:
+                code = DoitMain(ModuleTaskLoader(ns)).run(list(argv))
+                code = 0 if code is None else code
+            except SystemExit as e:
+                code = e.code
+            except BaseException as e:  # noqa
+                code = ['exc', type(e).__name__]
+        return code, out.getvalue(), err.getvalue()
+
+    def src_name(self, src):
+        if src >= 100:
+            g = src // 100 - 1
+            return sub_name(g, src % 100, norm_def(self.defs[g])['substyle'])
+        return tname(src)
 
     def namespace(self):
         world = self
@@ -258,13 +407,20 @@ class World(statuslib.World):
                 continue
 
             def creator(t=t, d=d):
-                out = {'actions': world._actions(t, d), 'file_dep': [fname(p) for p in d['deps']],
-                       'targets': [fname(p) for p in d['targets']],
+                out = {'actions': world._actions(t, d),
+                       'file_dep': [world.pathobj(fname(p), d['pathobj']) for p in d['deps']],
+                       'targets': [world.pathobj(fname(p), d['pathobj']) for p in d['targets']],
                        'uptodate': [world._uptodate(i) for i in d['uptodate']]}
                 if d['getargs']:
-                    out['getargs'] = {a: (tname(src), None if key is None else 'k%d' % key) for a, src, key in d['getargs']}
+                    seq = list if d['ga_list'] else tuple
+                    out['getargs'] = {a: seq([world.src_name(src), None if key is None else 'k%d' % key])
+                                      for a, src, key in d['getargs']}
                     if d['via_setup']:
-                        out['setup'] = sorted(set(tname(src) for _, src, _ in d['getargs']))
+                        # (a sub-task source is listed by its own full name: no implicit result_dep is added)
+                        out['setup'] = sorted(set(world.src_name(src) for _, src, _ in d['getargs']))
+                    if d['param']:
+                        # a task parameter with the name of the first getargs entry: the getargs value wins
+                        out['params'] = [{'name': d['getargs'][0][0], 'default': 'param-default', 'long': 'p' + d['getargs'][0][0]}]
                 if d['calc']:
                     out['calc_dep'] = [tname(c) for c in d['calc']]
                 return out
@@ -295,19 +451,24 @@ def read_obs():
                     if k == 't':
                         r['t'] = int(v)
                     elif k == 'C':
-                        r['changed'] = v.split()
+                        r['changed'] = split_names(v)
                     elif k == 'D':
-                        r['dependencies'] = v.split()
+                        r['dependencies'] = split_names(v)
                     elif k == 'T':
-                        r['targets'] = v.split()
+                        r['targets'] = split_names(v)
                     elif k.startswith('A:'):
                         try:
                             r['args'][k[2:]] = ast.literal_eval(v)
                         except Exception:  # noqa
-                            r['args'][k[2:]] = ['unparsed', v]
+                            r['args'][k[2:]] = v          # a str value is substituted without quotes
                 out[r['t']] = r
         os.remove(OBS_CMD)
     return out
+
+
+def set_fstyle(case):
+    global _FSTYLE
+    _FSTYLE = int(case.get('fstyle') or 0)
 
 
 def run_history(case):
@@ -315,6 +476,8 @@ def run_history(case):
     common.use_repo()
     w = World(case['backend'], case['checker'], case['ntasks'], case['npaths'])
     w.scramble = int(case.get('scramble') or 0)
+    w.fmt = case.get('fmt') or 'old'
+    set_fstyle(case)
     obs = []
     for op in case['ops']:
         kind = op[0]
@@ -386,7 +549,7 @@ def model_def(d):
     d = norm_def(d)
     utd = [list(i) for i in d['uptodate']]
     if d['getargs'] and not d['via_setup']:
-        for src in sorted(set(src for _, src, _ in d['getargs'])):
+        for src in sorted(set(src for _, src, _ in d['getargs'] if src < 100)):
             utd.append(['res', src])
     return {'deps': list(d['deps']), 'targets': list(d['targets']), 'uptodate': utd}
 
@@ -436,13 +599,13 @@ def canon_leaf(v, key):
         for k, x in sorted(v.items()):
             if k.startswith('_result:') or k in ('run-once', '_config_changed'):
                 continue
-            if isinstance(k, str) and k[:1] == 'k' and k[1:].isdigit() and isinstance(x, int):
-                out.append([int(k[1:]), x])
+            if isinstance(k, str) and k[:1] == 'k' and k[1:].isdigit() and value_id(x) is not None:
+                out.append([int(k[1:]), value_id(x)])
             else:
                 out.append(['unknown-key', repr(k), repr(x)])
         return {'whole': out}
-    if isinstance(v, int) and not isinstance(v, bool):
-        return {'one': v}
+    if value_id(v) is not None:
+        return {'one': value_id(v)}
     return ['not-a-value', repr(v)]
 
 
@@ -469,7 +632,8 @@ def sort_paths(l):
 def paths_of(names):
     out = []
     for n in names:
-        out.append(int(n[1:]) if n[:1] == 'f' and n[1:].isdigit() else n)
+        m = FILE_RES[_FSTYLE].fullmatch(n) if isinstance(n, str) else None
+        out.append(int(m.group(1)) if m else n)
     return out
 
 
@@ -482,6 +646,7 @@ class Translation(object):
         self.vals = []
         self.selects = []     # (model index, obs index, task, outcome, observed kw or None, always)
         self.sels = []        # (monitor index, obs index, task, observed kw)
+        self.calc_shapes = []
         self.get_names = {}   # vals index -> dict keys expected for a group source (harness side)
         self.gets = []        # (vals index, obs index, task, arg, src, key, subs, observed canonical value | ['error'])
         self.calc = []        # (obs index, task, expected dependencies (sorted) , observed, delivered tasks, order ok)
@@ -492,6 +657,7 @@ class Translation(object):
 
 
 def translate(case, obs):
+    set_fstyle(case)
     tr = Translation()
     ck = ['checker', CK_MODEL[case['checker']]]
     tr.model.append(ck)
@@ -561,13 +727,13 @@ def translate(case, obs):
                 # getargs of the consumer are read right before its execution: after all its sources completed
                 if tracked and d['getargs'] and oc in ('ok', 'fail', 'save-missing', 'getargs-error'):
                     for a, src, key in d['getargs']:
-                        subs = defs[src]['subs']
+                        subs = defs[src]['subs'] if src < 100 else 0
                         if oc == 'getargs-error':
                             seen = ['error']
                         elif kw is None or a not in kw['args']:
                             seen = ['not-received']
                         else:
-                            seen = canon_arg(kw['args'][a], src, key, subs, defs[src]['substyle'])
+                            seen = canon_arg(kw['args'][a], src, key, subs, defs[src]['substyle'] if src < 100 else 0)
                         tr.gets.append((len(tr.vals), i, tid, a, src, key, subs, seen))
                         if subs:
                             st_ = defs[src]['substyle']
@@ -579,7 +745,9 @@ def translate(case, obs):
                 if oc == 'ok':
                     vid = pl.get('vid')
                     if pl.get('deliver') is not None:
-                        delivered_saved[tid] = pl['deliver']
+                        dl_ = pl['deliver']
+                        # a str / None result has no values: nothing is delivered
+                        delivered_saved[tid] = dl_ if dl_.get('kind') in (None, 'dict') else {'kind': dl_.get('kind')}
                         tr.vals.append(['save', tid, []])
                     else:
                         delivered_saved.pop(tid, None)
@@ -593,7 +761,7 @@ def translate(case, obs):
                     if oc in ('ok', 'fail', 'save-missing'):
                         tr.n_exec[tid] = tr.n_exec.get(tid, 0) + 1
                         tr.completes.append((len(tr.model), i, tid, oc))
-                        tr.model.append(['complete', tid, oc != 'fail', writes, res])
+                        tr.model.append(['complete', tid, oc != 'fail', writes, res, plan_saveable(pl)])
                         tr.mon.append(['exec', tid, oc == 'ok', always, writes, res])
                     elif oc in ('unmet', 'getargs-error') or oc.startswith('other:'):
                         both(['unmet', tid])
@@ -602,7 +770,10 @@ def translate(case, obs):
                     for c, dc in defs.items():
                         if tid in dc['calc'] and oc in ('ok', 'up-to-date'):
                             dl = delivered_saved.get(tid) or {}
-                            both(['addcalc', c, list(dl.get('deps', []))])
+                            both(['addcalc', c, list(dl.get('deps', [])), [['const', bool(b)] for b in (dl.get('uptodate') or [])]])
+                            tr.calc_shapes.append('result-%s%s%s' % (dl.get('kind') or 'dict',
+                                                                     '+uptodate' if dl.get('uptodate') is not None else '',
+                                                                     '+unknown-keys' if dl.get('junk') else ''))
             if o['crash']:
                 # doit died with a traceback: the tasks without a closing report are probed on the model (an unhandled
                 # TypeError of MD5Checker on a state saved by TimestampChecker is an explicit `crash` of the model)
@@ -616,7 +787,8 @@ def translate(case, obs):
                         tr.model.append(['select', tid, always])
                         probes.append(len(tr.model))
                         tr.model.append(['complete', tid, pl.get('ok', True),
-                                         [[q, size_of(cid), cid] for q, cid, _ in pl.get('writes', [])], pl.get('vid')])
+                                         [[q, size_of(cid), cid] for q, cid, _ in pl.get('writes', [])], pl.get('vid'),
+                                         plan_saveable(pl)])
                 tr.crash = (i, o['crash'], probes, o.get('stderr'))
                 break
             # calc_dep trace predicates
@@ -705,6 +877,7 @@ def _def_at(case, i, t):
 
 
 def _judge(case, obs, tr, msteps, psteps, vsteps, v):
+    set_fstyle(case)
     for o in obs:
         if o['kind'] == 'run':
             v.count('run:' + (o['op'][1].get('par') or 'serial'))
@@ -724,6 +897,16 @@ def _judge(case, obs, tr, msteps, psteps, vsteps, v):
         if msteps[idx].get('crashed') and (stop_at is None or i < stop_at):
             stop_at = i
             v.count('skipped:model-crash-or-ambiguous')
+    for idx, i, t, oc in tr.completes:
+        if stop_at is not None and i >= stop_at:
+            break
+        pl = (obs[i].get('plan') or {}).get(str(t)) or {}
+        if not plan_saveable(pl):
+            v.count('execution-whose-values-can-not-be-saved:' + (UNSAVEABLE.get(pl.get('vid')) or 'calc result with pathlib file_dep'))
+        if bool(msteps[idx].get('saved')) != (oc == 'ok'):
+            v.divergence = v.divergence or (i, 'task %s: implementation reports %s, model %s' % (
+                tname(t), oc, 'recorded the execution' if msteps[idx].get('saved') else 'did not record the execution '
+                '(action failed, dependency missing or values that can not be saved)'), oc, msteps[idx].get('saved'))
     if tr.crash:
         ci, exc, probes, stderr = tr.crash
         predicted = any(msteps[j].get('status') == 'crash' or msteps[j].get('ambiguous') or msteps[j].get('crashed')
@@ -734,8 +917,23 @@ def _judge(case, obs, tr, msteps, psteps, vsteps, v):
         if predicted or earlier:
             v.count('skipped:crash-predicted-by-model')
         else:
-            v.divergence = v.divergence or (ci, 'doit died with %s; the model does not crash there' % exc,
-                                            (stderr or '').strip().split('\n')[-3:], 'no crash')
+            tail = (stderr or '').strip().split('\n')[-3:]
+            full = stderr or ''
+            if any('error_msg.format(dep)' in l for l in tail):
+                # get_status formatting the "Dependent file ... does not exist" message twice (F-C10-missing-dep-brace-name)
+                v.violations.append({'kind': 'crash', 'at_op': ci, 'exception': exc, 'stderr': tail,
+                                     'fstyle': int(case.get('fstyle') or 0),
+                                     'what': 'doit died with a %s traceback while reporting a missing file_dep: %s' % (exc, tail)})
+            elif 'JSON serializable' in full or 'JSONDecodeError' in full or 'json.decoder' in full or 'json/decoder' in full:
+                # values that can not be stored reached the DB (F-C10-unserialisable-values): the run dies when the DB
+                # is written, or a later run dies when it is read
+                v.violations.append({'kind': 'crash', 'at_op': ci, 'exception': exc, 'stderr': tail,
+                                     'what': 'doit died with a %s traceback while %s the dependency DB -- an execution whose '
+                                             'values can not be stored was recorded as a success (its consumers were given a '
+                                             'value no later run can deliver): %s'
+                                             % (exc, 'reading' if 'decode' in full.lower() and 'JSON serializable' not in full else 'writing', tail)})
+            else:
+                v.divergence = v.divergence or (ci, 'doit died with %s; the model does not crash there' % exc, tail, 'no crash')
     first_exec = {}
     # ---- K: status + kwargs
     for idx, i, t, oc, kw, always in tr.selects:
@@ -763,6 +961,18 @@ def _judge(case, obs, tr, msteps, psteps, vsteps, v):
                     'dependencies': sort_paths(paths_of(kw['dependencies'])),
                     'targets': paths_of(kw['targets'])}
             v.count('kwargs-compared:' + ('cmd' if kw.get('cmd') else 'py'))
+            dd_ = norm_def(_def_at(case, i, t))
+            if kw.get('cmd'):
+                v.count('cmd-action-string-formatting:' + (case.get('fmt') or 'old'))
+            v.count('file-names:' + ['plain', 'with a space', 'with braces'][int(case.get('fstyle') or 0)])
+            if dd_['pathobj']:
+                v.count('file_dep/targets-written-as-pathlib:' + dd_['pathobj'])
+            if dd_['ga_list']:
+                v.count('getargs-written-as-list')
+            if dd_['param'] and dd_['getargs']:
+                v.count('getargs-arg-named-like-a-task-param')
+            if kw.get('rawdiff'):
+                v.count('getargs:value-delivered-as-raw-python-object (same run; the DB returns its JSON form later)')
             v.count('changed-size:%d/%d' % (len(seen['changed']), len(seen['dependencies'])))
             if ms['falseItem']:
                 v.count('reason:uptodate-false')
@@ -832,6 +1042,10 @@ def _judge(case, obs, tr, msteps, psteps, vsteps, v):
         ans = vsteps[idx]
         kind = 'group' if subs else 'single'
         v.count('getargs:%s:%s' % (kind, 'whole' if key is None else 'key'))
+        if src >= 100:
+            v.count('getargs:source-is-a-sub-task')
+        if any(str(ODD_BASE + k) in json.dumps(ans['spec']) for k in ODD_VALUES):
+            v.count('getargs:value-that-json-changes-or-nests (tuple, int/None keys, float, nested)')
         for side in ('model', 'spec'):
             exp = ans[side]
             if 'error' in exp:
@@ -851,6 +1065,8 @@ def _judge(case, obs, tr, msteps, psteps, vsteps, v):
                     'what': 'getargs %s of %s: received %s, the latest successful execution(s) of %s still recorded '
                             'saved %s' % (a, tname(t), seen, tname(src), exp)})
         v.compared_late += 1 if i > 0 else 0
+    for sh in tr.calc_shapes:
+        v.count('calc:' + sh)
     # ---- calc_dep
     for i, c, exp, seen, tasks, order_ok in tr.calc:
         if stop_at is not None and i >= stop_at:
@@ -894,7 +1110,16 @@ def _sig_readded(w):
             and v['observed']['targets'] == v.get('targets'))
 
 
-SIGNATURES = {'changed-empty-on-false-uptodate': _sig_false_uptodate,
+def _sig_missing_dep_braces(w):
+    """doit dies inside get_status on `error_msg.format(dep)` (second formatting of the message) and the file names of
+    the history contain braces"""
+    v = w.get('violation') or {}
+    return (v.get('kind') == 'crash' and v.get('fstyle') == 2 and v.get('exception') in ('IndexError', 'KeyError', 'ValueError')
+            and any('error_msg.format(dep)' in l for l in v.get('stderr') or []))
+
+
+SIGNATURES = {
+              'changed-empty-on-false-uptodate': _sig_false_uptodate,
               }
 
 
@@ -902,7 +1127,10 @@ SIGNATURES = {'changed-empty-on-false-uptodate': _sig_false_uptodate,
 # rendering / shrinking
 
 def render(case):
-    out = ['backend=%s checker=%s tasks=%d files=%d' % (case['backend'], case['checker'], case['ntasks'], case['npaths'])]
+    set_fstyle(case)
+    out = ['backend=%s checker=%s tasks=%d files=%d%s' % (case['backend'], case['checker'], case['ntasks'], case['npaths'],
+                                                         (' action_string_formatting=%s' % case['fmt'] if case.get('fmt') else '') +
+                                                         (' file f<i> is named %r' % FILE_STYLES[case['fstyle']] if case.get('fstyle') else ''))]
     for op in case['ops']:
         k = op[0]
         if k == 'redefine':
@@ -915,11 +1143,17 @@ def render(case):
                 bits.append('file_dep %s targets %s uptodate %s' % ([fname(p) for p in d['deps']], [fname(p) for p in d['targets']],
                                                                      [' '.join(str(x) for x in i) for i in d['uptodate']]))
             if d['getargs']:
-                bits.append('getargs {%s}%s' % (', '.join('%s: (%s, %s)' % (a, tname(s), None if key is None else 'k%d' % key)
+                bits.append('getargs {%s}%s' % (', '.join('%s: (%s, %s)' % (a, id_to_name(s), None if key is None else 'k%d' % key)
                                                            for a, s, key in d['getargs']),
                                                  ' sources listed in setup' if d['via_setup'] else ''))
             if d['calc']:
                 bits.append('calc_dep %s' % [tname(c) for c in d['calc']])
+            if d['pathobj']:
+                bits.append('file_dep/targets as pathlib %s objects' % d['pathobj'])
+            if d['ga_list']:
+                bits.append('getargs entries written as lists')
+            if d['param'] and d['getargs']:
+                bits.append('params [{name: %s, default: param-default}]' % d['getargs'][0][0])
             if d['cmd']:
                 bits.append('cmd-action')
             elif d['kwform']:
@@ -939,10 +1173,17 @@ def render(case):
                 if not pl.get('ok', True):
                     bits.append('FAILS')
                 if pl.get('vid') is not None:
-                    bits.append('returns %s' % vals_of(pl['vid']))
+                    bits.append('returns %s%s' % (vals_of(pl['vid']), ' (can not be stored)' if pl['vid'] in UNSAVEABLE else ''))
                 if pl.get('deliver') is not None:
-                    bits.append('delivers file_dep %s task_dep %s' % ([fname(p) for p in pl['deliver'].get('deps', [])],
-                                                                     [tname(u) for u in pl['deliver'].get('tasks', [])]))
+                    dl = pl['deliver']
+                    if dl.get('kind') in ('str', 'none'):
+                        bits.append('returns %s (a calc_dep task without values)' % ('a str' if dl['kind'] == 'str' else 'None'))
+                    else:
+                        bits.append('delivers file_dep %s task_dep %s%s%s' % (
+                            [fname(p) for p in dl.get('deps', [])], [tname(u) for u in dl.get('tasks', [])],
+                            (' as pathlib objects (can not be stored)' if dl.get('pathobj') else '') +
+                            (' uptodate %s' % dl['uptodate'] if dl.get('uptodate') is not None else ''),
+                            ' + unknown keys junk, setup' if dl.get('junk') else ''))
                 if bits:
                     acts.append('%s %s' % (id_to_name(int(key)), ' '.join(bits)))
             out.append('doit run%s%s%s' % (flags, sel, ('   [actions: ' + '; '.join(acts) + ']') if acts else ''))
@@ -954,7 +1195,7 @@ def render(case):
 
 
 def strip(case):
-    return {k: case[k] for k in ('backend', 'checker', 'ntasks', 'npaths', 'ops', 'scramble') if k in case}
+    return {k: case[k] for k in ('backend', 'checker', 'ntasks', 'npaths', 'ops', 'scramble', 'fmt', 'fstyle') if k in case}
 
 
 def unknown_violations(v):
@@ -1052,13 +1293,24 @@ def gen_case(rng, parallel=False):
                  'cmd': rng.random() < 0.25}
             if not d['cmd'] and rng.random() < 0.5:
                 d['kwform'] = rng.choice(['varkw', 'varkw', 'explicit'])
+            if rng.random() < 0.25:
+                d['pathobj'] = rng.choice(['path', 'pure'])
             if sources and rng.random() < 0.75:
                 ga = []
                 for n in range(rng.choice([1, 1, 2])):
                     src = rng.choice(sources)
                     ga.append(['a%d' % n, src, rng.choice([None, 0, 0, 1])])
+                groups = [g for g in sources if roles[g] == 'group']
+                groups = [g for g in groups if tasks[g]['delayed'] is None]
+                if groups and rng.random() < 0.3:
+                    # the source is one SUB-TASK of a group (not of a group created by a delayed loader: doit rejects a
+                    # reference to a sub-task that does not exist at load time with "invalid setup task")
+                    g = rng.choice(groups)
+                    ga[0] = [ga[0][0], sub_id(g, rng.randrange(2)), ga[0][2]]
                 d['getargs'] = ga
-                d['via_setup'] = any(roles[s] == 'group' for _, s, _ in ga) or rng.random() < 0.3
+                d['via_setup'] = any(s >= 100 or roles[s] == 'group' for _, s, _ in ga) or rng.random() < 0.3
+                d['ga_list'] = rng.random() < 0.3
+                d['param'] = rng.random() < 0.25
             if calcs and rng.random() < 0.8:
                 d['calc'] = [rng.choice(calcs)]
             if not d['deps'] and not d['uptodate'] and rng.random() < 0.5:
@@ -1078,10 +1330,15 @@ def gen_case(rng, parallel=False):
         for t, r in enumerate(roles):
             d = tasks[t]
             if r == 'producer':
-                plan[str(t)] = {'ok': rng.random() < 0.9, 'vid': rng.choice([None, 1, 2, 3, 4, 5, 6, 7]), 'writes': []}
+                plan[str(t)] = {'ok': rng.random() < 0.9, 'writes': [],
+                                'vid': rng.choice(sorted(ODD_VALUES)) if rng.random() < 0.3 else rng.choice([None, 1, 2, 3, 4, 5, 6, 7])}
+                if rng.random() < 0.08:
+                    plan[str(t)]['vid'] = rng.choice(sorted(UNSAVEABLE))
             elif r == 'group':
                 for j in range(d['subs']):
-                    plan[str(sub_id(t, j))] = {'ok': rng.random() < 0.93, 'vid': rng.choice([None, 1, 2, 3, 4, 5, 6, 7, 8]), 'writes': []}
+                    plan[str(sub_id(t, j))] = {'ok': rng.random() < 0.93, 'writes': [],
+                                               'vid': rng.choice(sorted(ODD_VALUES)) if rng.random() < 0.25
+                                               else rng.choice([None, 1, 2, 3, 4, 5, 6, 7, 8])}
             elif r == 'calc':
                 cands = [u for u in range(ntasks) if roles[u] == 'producer']
                 ddeps = sorted(rng.sample(range(nsrc), rng.randint(0, min(2, nsrc))))
@@ -1089,9 +1346,20 @@ def gen_case(rng, parallel=False):
                 tgt = [q for u in range(ntasks) if roles[u] == 'consumer' and not tasks[u]['calc'] for q in tasks[u]['targets']]
                 if tgt and rng.random() < 0.35:
                     ddeps.append(rng.choice(tgt))
-                plan[str(t)] = {'ok': rng.random() < 0.92, 'writes': [],
-                                'deliver': {'deps': ddeps,
-                                            'tasks': [rng.choice(cands)] if cands and rng.random() < 0.4 else []}}
+                dl = {'deps': ddeps, 'tasks': [rng.choice(cands)] if cands and rng.random() < 0.4 else []}
+                q = rng.random()
+                if q < 0.1:
+                    dl = {'deps': [], 'tasks': [], 'kind': 'str'}
+                elif q < 0.2:
+                    dl = {'deps': [], 'tasks': [], 'kind': 'none'}
+                else:
+                    if rng.random() < 0.3:
+                        dl['uptodate'] = [rng.random() < 0.5]
+                    if rng.random() < 0.3:
+                        dl['junk'] = True
+                    if dl['deps'] and rng.random() < 0.1:
+                        dl['pathobj'] = rng.choice(['path', 'pure'])      # the result can not be stored
+                plan[str(t)] = {'ok': rng.random() < 0.92, 'writes': [], 'deliver': dl}
             else:
                 writes = [[p, rng.randrange(10, 16)] for p in d['targets'] if rng.random() < 0.85]
                 plan[str(t)] = {'ok': rng.random() < 0.88, 'writes': writes,
@@ -1160,6 +1428,12 @@ def gen_case(rng, parallel=False):
     case = {'backend': rng.choice(statuslib.BACKENDS), 'checker': rng.choice(['md5', 'md5', 'timestamp']),
             'ntasks': ntasks, 'npaths': npaths, 'ops': ops,
             'scramble': rng.choice([0, rng.randrange(1, 90000)])}
+    fs = rng.choice([0, 0, 1, 2])
+    if fs:
+        case['fstyle'] = fs
+    fmt = rng.choice(['old', 'old', 'new', 'both'])
+    if fmt != 'old':
+        case['fmt'] = fmt
     return case
 
 
